@@ -57,6 +57,9 @@ Kind(st) ==
     ELSE IF Unspecified(f, st.frag, cfg.role, cfg.pmce) THEN "wild"
     ELSE IF HeaderViolation(f, st.frag, cfg.role, cfg.pmce) THEN "viol"
     ELSE IF f.lk = "top" THEN "top"
+    \* RSV1 data frame whose payload was not produced by a deflater (header alphabet runs): what the
+    \* inflater makes of arbitrary bytes is not specified
+    ELSE IF IsDataOp(f.op) /\ f.r1 /\ ~f.comp THEN "wild"
     ELSE IF IsCtlOp(f.op) THEN
          IF ~Arrived(f) THEN "starve"
          ELSE IF CloseBodyViolation(f) THEN "viol" ELSE "ctl"
